@@ -5,7 +5,8 @@ from .core import ob, prop
 CADICAL = ["--sat-solver", "cadical"]
 
 # ----------------------------------------------------------------------------- crle.c
-RLE = dict(unit="crle_u.c", file="hdf/src/crle.c", cex_unwind=14)
+RLE0 = dict(unit="crle_u.c", file="hdf/src/crle.c")
+RLE = dict(cex_unwind=14, **RLE0)
 # (a) unbounded, loop contracts.  *_wf: RLE_WF state invariant, every buffer index in bounds, packet
 # well-formedness, offset/packet-length accounting for ANY length and bytes (ghost-element clause
 # switched off: quick).  Full versions add the ghost stream position g_k: what the emitted packets
@@ -25,13 +26,13 @@ ob("crle_decode", "C05", entry="h_crle_decode", enforce="HCIcrle_decode", loops=
 ob("crle_init", "C05", entry="h_crle_init", enforce="HCIcrle_init", **RLE)
 # (b) bounded round trips through the ghost byte store: init, <=3 encode calls, term, init, <=3 decode calls
 RT = dict(entry="h_crle_roundtrip", mode="bounded", objbits=11, flags=CADICAL,
-          trusted=["byte-loop models of memcpy/memset (source re-based on the typed RLE buffer)"], **RLE)
+          trusted=["byte-loop models of memcpy/memset (source re-based on the typed RLE buffer)"], **RLE0)
 ob("crle_roundtrip3", "C05", bound="stream <= 3 bytes, full alphabet, any split into <= 3 encode calls + term and <= 3 decode calls",
-   unwind=5, defines=["RT_N=3", "RLE_LOOP_COPY"], timeout=600, **RT)
+   unwind=5, cex_unwind=5, defines=["RT_N=3", "RLE_LOOP_COPY"], timeout=600, **RT)
 ob("crle_roundtrip4", "C05", bound="stream <= 4 bytes, full alphabet, any split into <= 3 encode calls + term and <= 3 decode calls",
-   unwind=6, defines=["RT_N=4", "RLE_LOOP_COPY"], timeout=1800, tier="thorough", **RT)
+   unwind=6, cex_unwind=6, defines=["RT_N=4", "RLE_LOOP_COPY"], timeout=1800, tier="thorough", **RT)
 ob("crle_roundtrip6", "C05", bound="stream <= 6 bytes, full alphabet, any split into <= 3 encode calls + term and <= 3 decode calls",
-   unwind=8, defines=["RT_N=6", "RLE_LOOP_COPY"], timeout=5400, tier="thorough", **RT)
+   unwind=8, cex_unwind=8, defines=["RT_N=6", "RLE_LOOP_COPY"], timeout=5400, tier="thorough", **RT)
 
 # ----------------------------------------------------------------------------- hbitio.c
 _HB = os.path.join(os.environ.get("H4V_REPO", "/repo"), "hdf/src/hbitio.c")
@@ -44,6 +45,10 @@ for _f in ("Hbitwrite", "Hbitread"):
 BIT = dict(unit="hbitio_u.c", file="hdf/src/hbitio.c", gi_flags=BIT_GI, objbits=10, cex_unwind=18,
            trusted=["calloc never fails (__CPROVER_allocate)", "one-slot atom registry", "ghost byte store behind Hwrite/Hread/Hseek/Hinquire"])
 ob("bit_masks", "C05", entry="h_bit_masks", unit="hbitio_u.c", file="hdf/src/hbitio.c")
+ob("bit_roundtrip1", "C05", entry="h_bit_roundtrip", mode="bounded", unwind=18, defines=["BIT_NF=1"],
+   bound="1 field of width 1..32 (any value): Hstartbitwrite, Hbitwrite, Hendbitaccess(flush 0), Hstartbitread, Hbitread, Hendbitaccess", **BIT)
+ob("bit_roundtrip2", "C05", entry="h_bit_roundtrip", mode="bounded", unwind=18, defines=["BIT_NF=2"], timeout=2400, tier="thorough",
+   bound="<= 2 fields of width 1..32 (any values), same history", **BIT)
 ob("bit_unknown_id", ["C05", "C13"], entry="h_bit_unknown_id", unwind=18, **BIT)
 # C13 / DESIGN 9 D6: expected to FAIL on the unchanged tree (function-static record cache)
 ob("bit_stale_write", ["C05", "C13"], entry="h_bit_stale_write", mode="bounded",
